@@ -18,7 +18,7 @@ OutlineAt(e, dx) ==
       nc == NumContours(e.glyf)
   IN /\ Len(e.segs) = nc
      /\ \A c \in 1..nc : SameCycle(CyclicSegments(Contour(e.glyf, pts, c)), [j \in DOMAIN e.segs[c] |-> ToSeg(e.segs[c][j])])
-OutlineEq(e) == Degenerate(e) \/ OutlineAt(e, 0) \/ OutlineAt(e, e.lsb - XMin(e.glyf))
+OutlineEq(e) == OutlineAt(e, 0) \/ OutlineAt(e, e.lsb - XMin(e.glyf))
 (* extents: the header box; the x bearing is xMin or, by the same convention, the left side bearing;  *)
 (* an empty glyph has zero extents                                                                     *)
 ExtentsEq(e) == LET x == Extents(e.glyf) IN
